@@ -219,6 +219,14 @@ func (node *CallGraphStage) resolveInputs(siblings map[string]*ResolvedBinding,
 			mapped = append(mapped, node)
 		}
 	}
+	if node.split != nil {
+		if err := checkNestedSplitLengths(node.call, ins, lookup); err != nil {
+			errs = append(errs, &bindingError{
+				Msg: node.Fqid,
+				Err: err,
+			})
+		}
+	}
 	node.Inputs = ins
 	node.resolveForks(mapped, node)
 	if err := errs.If(); err != nil {
@@ -228,6 +236,82 @@ func (node *CallGraphStage) resolveInputs(siblings map[string]*ResolvedBinding,
 		}
 	}
 	return nil
+}
+
+// checkNestedSplitLengths checks the split arguments of a call whose values
+// come from statically-known enclosing splits.  The length of such a value
+// depends on the index of the enclosing call, so it can only be compared to
+// the length of the call's other split arguments once that index is fixed.
+func checkNestedSplitLengths(call *CallStm, ins map[string]*ResolvedBinding,
+	lookup *TypeLookup) error {
+	ids := make([]string, 0, len(ins))
+	for id := range ins {
+		ids = append(ids, id)
+	}
+	sort.Strings(ids)
+	var errs ErrorList
+	for _, id := range ids {
+		if sp, ok := ins[id].Exp.(*SplitExp); ok && sp.Call == call {
+			fork := make(map[*CallStm]CollectionIndex)
+			if err := sp.checkNestedLengths(sp.Value, fork, lookup); err != nil {
+				errs = append(errs, &bindingError{
+					Msg: "parameter " + id,
+					Err: err,
+				})
+			}
+		}
+	}
+	return errs.If()
+}
+
+func (sp *SplitExp) checkNestedLengths(value Exp,
+	fork map[*CallStm]CollectionIndex, lookup *TypeLookup) error {
+	for e, ok := value.(*SplitExp); ok; e, ok = e.Value.(*SplitExp) {
+		if _, bound := fork[e.Call]; bound || e.Call == sp.Call {
+			continue
+		}
+		var indices []CollectionIndex
+		switch c := e.Value.(type) {
+		case *ArrayExp:
+			indices = make([]CollectionIndex, len(c.Value))
+			for i := range c.Value {
+				indices[i] = arrayIndex(i)
+			}
+		case *MapExp:
+			if c.Kind != KindMap {
+				return nil
+			}
+			keys := make([]string, 0, len(c.Value))
+			for k := range c.Value {
+				keys = append(keys, k)
+			}
+			sort.Strings(keys)
+			indices = make([]CollectionIndex, len(keys))
+			for i, k := range keys {
+				indices[i] = mapKeyIndex(k)
+			}
+		default:
+			// Not known until run time.
+			return nil
+		}
+		defer delete(fork, e.Call)
+		for _, i := range indices {
+			fork[e.Call] = i
+			v, err := sp.Value.BindingPath("", fork, lookup)
+			if err != nil {
+				return err
+			}
+			if err := sp.checkNestedLengths(v, fork, lookup); err != nil {
+				return err
+			}
+		}
+		return nil
+	}
+	if len(fork) == 0 {
+		return nil
+	}
+	_, err := sp.BindingPath("", fork, lookup)
+	return err
 }
 
 type sortedSplitList []*SplitExp
